@@ -26,5 +26,10 @@ Abs(r) ==
       IF ps.dropLF /\ ps.open # <<>> THEN <<HasContent(ps.nodes, Cur(ps))>> ELSE <<>>,
       ps.ptt # <<>>>>
 View == <<cx, Abs(Paused)>>
-ThmExport == PrintT(ToJson([src |-> src, cx |-> cx, mode |-> Paused.ps.mode]))
+\* coarse class used by the harness to stratify sampling: every (class, token) pair is exercised at least once in the quick tier
+Coarse(r) == LET ps == r.ps IN
+    <<ps.mode, IF ps.open = <<>> THEN <<>> ELSE <<CurNd(ps).ns, CurNd(ps).n>>,
+      IF ps.dropLF /\ ps.open # <<>> THEN (IF HasContent(ps.nodes, Cur(ps)) THEN 2 ELSE 1) ELSE 0,
+      ps.ptt # <<>>, ps.afe # <<>> /\ Last(ps.afe) # 0, r.ts.st>>
+ThmExport == PrintT(ToJson([src |-> src, cx |-> cx, mode |-> Paused.ps.mode, cls |-> Coarse(Paused)]))
 =============================================================================
